@@ -20,10 +20,12 @@ EXPLANATION = (
     'update_from_gh_json, _start_build, try_to_merge, merge) against a fake GitHub holding the truth per commit and '
     'a fake batch service; k external events (push incl. back to an old commit, review decision, label toggle, '
     'status report on current or older commit, batch completion, target move, poll), each followed by the '
-    'webhook-triggered update; at every accepted merge the truth snapshot must show: approved, no do-not-merge '
+    'webhook-triggered update (run atomically, or — in the suspension histories — interleaved with one more event); at every accepted merge the truth snapshot must show: approved, no do-not-merge '
     'label, >= 1 status and all SUCCESS on the merged head, the PR batch succeeded on (that head, the target '
     'commit merged onto), <= 1 merge per update and per target commit. Bounds: 1 PR with k<=3 (quick) / 4 '
-    '(thorough) events, 2 PRs with k<=2 / 3.'
+    '(thorough) events, 2 PRs with k<=2 / 3; plus histories (1 PR, 2 events) in which one further event and its '
+    'notification are delivered while an update is suspended inside a GitHub/batch call (4 kinds of suspension point '
+    'quick, 7 thorough), judged on changes CI had acknowledged before the merging update run began.'
 )
 SRC = 'ci/ci/github.py'
 FUNCS = ['is_up_to_date', 'is_mergeable', 'merge', 'try_to_merge', 'update_from_gh_json', '_update', '_update_github',
@@ -78,6 +80,16 @@ def _plan(tier):
             for e in range(len(evs)):
                 hists.append({'npr': 1, 'k': 3, 'flood': sizes, 'events': evs, 'shard': {'flood_m': mi, 'ev0': e},
                               'validate': 3})
+    # deliveries while an update is suspended in a GitHub / batch call (lost or late notifications)
+    if tier == 'quick':
+        intr = {'budget': 1, 'phases': ['getiter', 'graphql', 'list_batches', 'put'],
+                'kinds': ['label', 'review', 'status', 'batch_done']}
+    else:
+        intr = {'budget': 1, 'phases': ['getitem', 'getiter', 'graphql', 'list_batches', 'post_status', 'batch_submit', 'put'],
+                'kinds': ['label', 'review', 'status', 'push', 'target_move', 'batch_done']}
+    for e in range(7):
+        for r1 in range(2):
+            hists.append({'npr': 1, 'k': 2, 'intr': intr, 'shard': {'ev0': e, 'init_review_1': r1}, 'validate': 3})
     return steps, hists
 
 
@@ -114,6 +126,17 @@ def run(R):
         'and an accepted merge closes the PR and moves the target branch to a fresh commit',
         'webhooks are reliable and ordered: each external event is followed by notify_github_changed (batch completion: '
         'notify_batch_changed) before the next event; status posts by CI succeed; every status context is required',
+        'suspension points: in the histories "with an event delivered while an update waits" the fake GitHub/batch calls '
+        '(branch ref, PR list, GraphQL page, list_batches, status post, batch submit, merge request — after the answer '
+        'was computed, before CI reads it) are points where one more external change plus its real notify_* call may '
+        'happen; the nested notify runs the real code (finds `updating` set, raises the real *_changed flag, returns)',
+        'oracle under concurrency: a gate component counts against a merge when the ground truth violates it at the '
+        'moment of the merge AND its last change precedes the start of the merging update run — i.e. CI had '
+        'acknowledged the notification of that change (handler returned) before it began the run that merged; this '
+        'follows from "merges only if approved / not do-not-merge / checks succeeded / tested on the current target": '
+        'acting on a view CI has been told is outdated is a merge not justified by those facts. A change arriving '
+        'WHILE the merging run is in flight (after its refresh) is the unavoidable race with GitHub and is tolerated; '
+        'such merges are counted in the evidence (tolerated_merges_racing…)',
         '_start_build: git/shell, build.yaml parsing and BuildConfiguration.build are stubbed (the batch is created '
         'through the real code path with the real attributes)',
         'an AssertionError out of _update (is_mergeable asserts build_state == success when the ci status is success) '
@@ -164,17 +187,22 @@ def run(R):
               'paths_where_is_mergeable_asserts': sum(r['assertion_paths'] for r in sres)})
 
     # ---- (b) history
-    aborted = 0
+    aborted = inflight = deliveries = 0
     for r in hres:
         s = r['spec']
         R.states += r['updates']
         R.transitions += r['events']
         R.traces_validated += r['validated']
         aborted += r['aborted_updates']
+        inflight += r.get('inflight_merges', 0)
+        deliveries += r.get('deliveries_during_updates', 0)
         for smp in r['samples'][:1]:
             R.sample({'history': s, **smp})
         fl = (f' with {s["flood"][s["shard"]["flood_m"]]} further status contexts on the head (GraphQL pages of the size '
               f'the query asks for; one context at a symbolic position may be non-success),') if s.get('flood') else ','
+        if s.get('intr'):
+            fl = (f' with {s["intr"]["budget"]} further event delivered while an update waits in a GitHub/batch call '
+                  f'({len(s["intr"]["phases"])} kinds of suspension point),')
         name = (f'history {s["npr"]} PR{"s" if s["npr"] > 1 else ""}{fl} {s["k"]} events, shard {s["shard"]}: every accepted '
                 f'merge is approved, unlabelled, all-success on the merged head, tested on the current target; '
                 f'<= 1 merge per update / target commit')
@@ -189,17 +217,19 @@ def run(R):
             for vio in r['violations']:
                 if not vio['reproduced']:
                     raise HarnessError(f'{name}: counterexample does not reproduce: {vio}')
-                cls = 'merge-' + vio['what'].split(': ')[-1].replace(' ', '-').replace('(', '').replace(')', '').replace(',', '')
+                cls = 'merge-' + vio['what'].split(': ')[-1].split(' — ')[0].replace(' ', '-').replace('(', '').replace(')', '').replace(',', '')
                 if 'status' in cls and 'not-success' in cls:
                     cls = 'merge-with-non-success-status-on-head'
                 st = R.finding(cls, f'{vio["what"]}; events {vio["events"]}',
                                {'kind': 'history', 'npr': s['npr'], 'k': s['k'], 'pins': vio['pins'],
-                                'events': s.get('events'), 'flood': s.get('flood')})
+                                'events': s.get('events'), 'flood': s.get('flood'), 'intr': s.get('intr')})
                 status = st if status == 'discharged' or st == 'violated' else status
             R.ob(name, status, r['secs'], det, nontrivial=True)
         else:
             R.ob(name, 'not_discharged', r['secs'], {'solver': q['result']})
     R.extra['updates_aborted_by_is_mergeable_assertion'] = aborted
+    R.extra['events_delivered_while_an_update_was_suspended'] = deliveries
+    R.extra['tolerated_merges_racing_with_a_change_during_the_merging_update'] = inflight
 
 
 def replay(path):
